@@ -21,3 +21,4 @@ pub mod util;
 pub mod k1_lib;
 mod k2_insert;
 mod k2_remove;
+mod k2_range;
